@@ -10,11 +10,13 @@
 """
 from __future__ import annotations
 
+import ast
+
 from typing import Any, Dict, List
 
 from ..absint import App, ClassRef, FuncRef, Hooks, Interp, Obj, Sym, vrepr
 from ..keymodel import CURVES, EXT, KEY, KeyHooks, key_obj, term_len
-from ..model import AnalysisError, Repo
+from ..model import AnalysisError, Repo, norm
 from ..report import Check
 from .c09 import table
 
@@ -162,6 +164,27 @@ def run(repo: Repo, chk: Check) -> None:
                {'found': sorted(ds), 'reference': ref_digest[curve]}, what=f'{curve.decode()} signs {sorted(ds)} of the message, Tezos signs {ref_digest[curve]}')
         chk.ob('R-PAIR', f'{KEY}.verify', dv == ds and bool(dv), f'{curve.decode()}: verify uses the digest sign uses', verify.loc,
                {'sign': sorted(ds), 'verify': sorted(dv)}, what=f'{curve.decode()}: sign hashes with {sorted(ds)} but verify with {sorted(dv)}')
+
+    # the normaliser reads a text message as the bytes it spells in hexadecimal, in EITHER letter case (bytes.fromhex accepts both): a character
+    # whitelist in front of the parser must contain every hexadecimal digit
+    sc = repo.func('pytezos.crypto.encoding.scrub_input')
+    import string as _string
+    narrow = []
+    for f2 in repo.with_fresh_callees(sc):
+        lowered = any(isinstance(c, ast.Call) and isinstance(c.func, ast.Attribute) and c.func.attr in ('lower', 'upper', 'casefold') for c in ast.walk(f2.node))
+        for n in ast.walk(f2.node):
+            if isinstance(n, ast.Compare) and len(n.ops) == 1 and isinstance(n.ops[0], (ast.In, ast.NotIn)):
+                try:
+                    alphabet = repo.fold(n.comparators[0], f2.module)
+                except Exception:
+                    continue
+                if isinstance(alphabet, (str, bytes, frozenset, set, list, tuple)) and len(alphabet) >= 10:
+                    chars = {chr(c) if isinstance(c, int) else c for c in alphabet}
+                    if set('0123456789') <= chars and not (set(_string.hexdigits) <= chars) and not lowered:
+                        narrow.append(f'{f2.module.relpath}:{n.lineno} `{norm(n)[:60]}`')
+    chk.ob('R-GUARD', sc.qualname, not narrow, 'no character whitelist narrower than the hexadecimal digits of both cases guards the hex reading', sc.loc, {'narrow_tests': narrow},
+           what=f'scrub_input tests the characters of a text message with {narrow[:1]}: hexadecimal text written with the missing digits (upper-case A-F) is signed / verified as its '
+                'ASCII characters instead of the bytes it spells')
 
     # ---- 3 (prefix, length) ---------------------------------------------------------------------------------------------
     chk.set_clause('C07.3')
